@@ -1,10 +1,13 @@
 import DoitModel.Proofs.Sel
 import DoitModel.Proofs.SelSingle
 import DoitModel.Proofs.SelClosure
+import DoitModel.Proofs.SelClosed
+import DoitModel.Proofs.C12Order
+import DoitModel.Proofs.C12Examples
 /-! # C12 — task selection yields exactly the requested closure
 
 Property theorems only (model: `Model/Sel.lean`; lemmas: `Proofs/Sel.lean`, `Proofs/SelSingle.lean`,
-`Proofs/SelClosure.lean`).  Quantification: every task set, every argument list, with / without `default_tasks`,
+`Proofs/SelClosure.lean`, `Proofs/SelClosed.lean`; the order clause on the run model M1: `Proofs/C12*.lean`).  Quantification: every task set, every argument list, with / without `default_tasks`,
 with / without `--single`.  Strings are `List Char`; patterns are over `*`, `?` and literal characters. -/
 namespace DoitModel.C12
 open DoitModel.Sel
@@ -127,14 +130,21 @@ theorem pinned_single_counterexample :
 
 /-- the set computed for the dispatcher is the least set that contains the selection and is closed under the edges
     `succs` (task_dep after wild-card expansion and implicit deps, calc_dep, setup-tasks of tasks that are not declared
-    up-to-date).  Completeness is relative to the decidable certificate `closedB`, which the driver evaluates on every
-    case (evidence: `closure-certificate closedB`). -/
+    up-to-date): it consists of reachable names only, contains the selection, contains everything reachable, and is
+    inside every closed set that contains the selection.  Completeness is unconditional (`closure_closed`); the
+    decidable certificate `closedB`, which the driver still evaluates on every case, always holds. -/
 theorem closure (ts : List Task) (sel : List Tok) :
     (∀ m, m ∈ closureOf ts sel → Reach ts sel m) ∧
     (∀ n ∈ sel, n ∈ closureOf ts sel) ∧
-    (closedB ts (closureOf ts sel) = true → ∀ m, Reach ts sel m → m ∈ closureOf ts sel) ∧
+    (∀ m, Reach ts sel m → m ∈ closureOf ts sel) ∧
     (∀ S : List Tok, (∀ n ∈ sel, n ∈ S) → Closed ts S → ∀ m, Reach ts sel m → m ∈ S) :=
-  ⟨closure_sound ts sel, closure_has_sel ts sel, closure_complete ts sel, reach_least ts sel⟩
+  ⟨closure_sound ts sel, closure_has_sel ts sel, closure_complete' ts sel, reach_least ts sel⟩
+
+/-- `ts.length` rounds of expansion reach the fixed point: the computed closure is closed under `succs`, i.e. the
+    certificate `closedB` cannot fail -/
+theorem closure_closed (ts : List Task) (sel : List Tok) :
+    Closed ts (closureOf ts sel) ∧ closedB ts (closureOf ts sel) = true :=
+  ⟨closureOf_closed ts sel, closedB_closureOf ts sel⟩
 
 /-! ## `order` -/
 
@@ -146,13 +156,38 @@ theorem closure (ts : List Task) (sel : List Tok) :
 theorem order (ts : List Task) (sel started : List Tok) (h : chunkedB ts sel started = true) :
     orderPairsBad ts sel started = [] := order_of_chunked ts sel started h
 
-/-- order clause of C12 for a start-order function of the serial runner (`serialStart ts sel` = the order in which
-    the serial runner starts tasks): a selected task given later starts earlier only if it is in the closure of a task
-    selected before.  NOT proved for the dispatcher itself — that needs the run model M1 (C01/C02); proved above for
-    every start order satisfying the chunk abstraction; `Sel.monitor` evaluates exactly this clause (`orderPairsBad`)
-    on every observed run. -/
-def order_full (serialStart : List Task → List Tok → List Tok) : Prop :=
-  ∀ ts sel, orderPairsBad ts sel (serialStart ts sel) = []
+/-- **order_full** — the order clause of C12 on the dispatcher itself (run model M1, `Model/Run.lean`).
+
+    `Represents ts sel nm inp`: `inp` is a serial run of the task table `ts` with selection `sel` (`nm`, injective, names
+    the run model's tasks) and every edge the dispatcher can follow is an edge of the static graph `succs`: task_dep,
+    calc_dep, setup-tasks of a task that may run (not ignored, not up-to-date), whatever a calc_dep task delivers.
+    Then in EVERY reachable state of the serial runner — any iteration order of the sets, any outcomes / statuses /
+    `--continue`, runs cut short by a failure or by the cyclic-dependency error included — the order in which tasks
+    were started satisfies the clause `Sel.monitor` evaluates: a selected task given later starts before a selected task
+    `a` only if it is in the closure of the tasks selected up to `a`.
+
+    The notion of dependency that is needed: `b` may overtake `a` iff `b ∈ closureOf ts (tasks selected up to a)`, i.e.
+    `b` is reachable from SOME task selected no later than `a` (not only from `a`), transitively, over ALL edge kinds
+    the dispatcher follows (task_dep incl. wild-card expansion and implicit file deps, calc_dep, calc results,
+    setup-tasks of tasks that run).  Run-model form, for any task `b` (selected or not): `Run.serial_start_order`.
+
+    Why not via `chunkedB`: the chunk abstraction is NOT an invariant of the run model (`chunk_not_invariant` below);
+    `order` (for chunked start orders) is kept, `order_full` is proved directly: while only a prefix `pre` of the
+    selection has been popped from `tasks_to_run` every node is in the closure of `pre`; `tasks_to_run` is popped only
+    when nothing is current or ready, and then every existing node is finished or belongs to a set of parked nodes that
+    await each other, none of which is ever started. -/
+theorem order_full (ts : List Task) (sel : List Tok) (nm : Run.Name → Tok) (inp : Run.RunInput) (s : Run.Sys)
+    (h : Represents ts sel nm inp) (hr : Run.Reach inp s) :
+    orderPairsBad ts sel ((Run.startOrder s).map nm) = [] := order_of_run h hr
+
+/-- the same on the run model alone: serial runner, `pre` a prefix of the selection; whatever is started before a
+    member of `pre` belongs to the dependency closure of `pre` (`Run.Cl`, Proofs/RunClosure.lean) -/
+theorem order_run_model (inp : Run.RunInput) (pre post : List Run.Name) (s : Run.Sys)
+    (hser : inp.runner = .serial) (hsel : inp.sel = pre ++ post) (hr : Run.Reach inp s)
+    (before : List Run.Name) (a : Run.Name) (after : List Run.Name)
+    (hso : Run.startOrder s = before ++ a :: after) (ha : a ∈ pre) :
+    ∀ b ∈ before, Run.Cl (Run.cutSel inp pre) b :=
+  Run.serial_start_order hser hsel hr before a after hso ha
 
 /-! ## non-vacuity -/
 
@@ -191,5 +226,32 @@ example : chunkedB (prepare exTasks) [['b'], ['a'], ['g']] [['a'], ['a', 'b'], [
     chunkedB (prepare exTasks) [['g', ':', 'x'], ['a']] [['a'], ['a', 'b'], ['b'], ['g', ':', 'x']] = true ∧
     chunkedB (prepare exTasks) [['a'], ['g']] [['g'], ['a']] = false := by decide
 end examples
+
+/-! ### the order clause on the run model -/
+
+section run_examples
+/-! the task tables `exOrdTasks` / `exChunkTasks`, their run inputs and the proofs that these represent them are in
+    `Proofs/C12Examples.lean`; run-model task `n` is called `exNm n` = `x` repeated `n+1` times -/
+
+/-- the hypotheses of `order_full` are satisfiable and the interesting situation is reached: `doit xx x xxxx` runs to
+    completion, and the later-selected `x` (a dependency of `xx`) and the unselected setup-task `xxx` start before `xx` -/
+example : ∃ s, Represents exOrdTasks [exNm 1, exNm 0, exNm 3] exNm exOrdInp ∧ Run.Reach exOrdInp s ∧
+    (Run.startOrder s).map exNm = [exNm 0, exNm 2, exNm 1, exNm 3] ∧ s.events.contains Run.Ev.complete = true :=
+  ⟨_, exOrd_represents, Run.autoRun_reach (by decide) false false 400 _ Run.Reach.init, by decide +kernel,
+    by decide +kernel⟩
+
+/-- the chunk abstraction `chunkedB` is NOT an invariant of the run model: under `--continue`, `x` fails with an unmet
+    dependency (`xx` failed), so its setup-task `xxx` — a member of the closure of `x` — is not created in the tree of
+    `x`; it is created and started later, in the tree of `xxxx`, after `xxxxx` which is outside the closure of `x`.  The
+    order clause itself holds (`order_full`): `x` is never started. -/
+theorem chunk_not_invariant : ∃ s, Represents exChunkTasks [exNm 0, exNm 3] exNm exChunkInp ∧
+    Run.Reach exChunkInp s ∧
+    (Run.startOrder s).map exNm = [exNm 1, exNm 4, exNm 2, exNm 3] ∧
+    chunkedB exChunkTasks [exNm 0, exNm 3] ((Run.startOrder s).map exNm) = false ∧
+    orderPairsBad exChunkTasks [exNm 0, exNm 3] ((Run.startOrder s).map exNm) = [] :=
+  ⟨_, exChunk_represents, Run.autoRun_reach (by decide) false false 400 _ Run.Reach.init, by decide +kernel,
+    by decide +kernel,
+    order_full _ _ _ _ _ exChunk_represents (Run.autoRun_reach (by decide) false false 400 _ Run.Reach.init)⟩
+end run_examples
 
 end DoitModel.C12
